@@ -182,6 +182,41 @@ def run_S2(chk):
         want = Poly.const(0) if is_default else n_sym("a") + S_ * Poly.sym("c<t_user>")
         chk.verdict("S2", (f, s[0][0]), f"add_leg: n of result with {'default' if is_default else 'user'} charge", True if (reduce_signs(got - want, {"sig<s>"})).is_zero() else False,
                     f"add_leg(): total charge evaluates to [{got}], the algebra dictates [{want}] (n(a) + s*t)")
+    # the default charge is used exactly when no charge was given: every charge, including the falsy ones 0 and (), is a valid user
+    # value, so the branch must test identity with None — decided by evaluating the branch condition on witness values
+    from ..core.minieval import evaluate, CannotEvaluate
+    par_ = A.enclosing_map(f.node)
+    for td in tdefs:
+        if "a.struct.n" not in A.text(td.value):
+            continue
+        cur = td
+        cond = None
+        while cur in par_:
+            p_ = par_[cur]
+            if isinstance(p_, ast.If):
+                cond = (p_.test, cur in p_.body)
+                break
+            cur = p_
+        chk.require(cond is not None, "add_leg: branch that selects the default charge not found")
+        try:
+            res = {repr(w): bool(evaluate(cond[0], {"t": w})) is cond[1] for w in (None, 0, (), (0,), 1, (1, 0))}
+        except CannotEvaluate as e:
+            raise AnalysisError(f"add_leg: cannot evaluate `{A.text(cond[0])}` ({e})")
+        ok = res["None"] and not any(v for k, v in res.items() if k != "None")
+        chk.verdict("S2", (f, td), f"add_leg: default charge iff t is None (`{A.text(cond[0])}`)", True if ok else False,
+                    f"add_leg(): the default charge -s*n(a) is taken for t in {[k for k, v in res.items() if v]}; it must be taken for None only: an explicit "
+                    f"zero charge (t=0 or t=()) is a valid request and gives n(result) = n(a), not 0")
+    # rand_like: the result has the template's legs *and* total charge
+    rl = prog.func("yastn.initialize", "rand_like")
+    tpl = rl.params[0]
+    cc = [c for c in A.calls(rl.node) if A.call_name(c) in ("rand", "randR", "randC", "zeros", "ones")]
+    chk.require(cc, "rand_like: constructor call not found")
+    kws = {k.arg: A.text(k.value) for k in cc[0].keywords if k.arg}
+    ok = kws.get("n") in (f"{tpl}.n", f"{tpl}.struct.n") and kws.get("legs", "").startswith(f"{tpl}.get_legs(") and kws.get("isdiag") == f"{tpl}.isdiag" \
+        and kws.get("config") == f"{tpl}.config"
+    chk.verdict("S2", (rl, cc[0]), f"rand_like: config, legs, n, isdiag of the template are forwarded", True if ok else False,
+                f"rand_like(): the constructor call receives {kws}; the template's total charge / legs / isdiag / config must all be forwarded "
+                f"(a dropped n= gives a tensor of charge 0 whose blocks violate the template's selection rule)")
     # remove_leg: n(a) - s_leg * t_leg
     f = prog.func(SING, "remove_leg")
     s = only_site(f)
